@@ -14,8 +14,9 @@ namespace HC.Props.C15
 open HC HC.Worker
 
 /-- the two worker classes as the code is now (the flags are re-measured on every run of the check).
-    `Runtime.asyncioBeforeFixes` / `Runtime.trioBeforeFixes` are kept for the record: the runs that refuted the full
-    statements before the `fix:` commits 4c08dc8 (F18) and b7ab22b (F31) are theorems about them.  Each clause appears as
+    `Runtime.asyncioBeforeFixes` / `Runtime.trioBeforeFixes` / `Runtime.asyncioBeforeF32` are kept for the record: the runs
+    that refuted the full statements before the `fix:` commits 4c08dc8 (F18), b7ab22b (F31) and 1b98b61 (F32) are theorems
+    about them.  Each clause appears as
     `…_of_flags` (arbitrary runtime, hypotheses on flags) and as the full statement for the current runtimes. -/
 def Current (rt : Runtime) : Prop := rt = Runtime.asyncio ∨ rt = Runtime.trio
 
@@ -62,9 +63,8 @@ theorem bounded (rt : Runtime) (hc : Current rt) (cfg : Cfg) (script : List LAct
 
 /-- … and the clock is never stuck: at either deadline `worker_serve` has an action to take (the put cannot block
     because the queue bound is at least 2 and at most one message is still queued) — on runtimes on which a cancelled
-    handler always finishes (`h2CancelDeadlocks = false`: trio).  **Still open on asyncio (known finding F32)**: a cancelled
-    handler with an HTTP/2 stream in progress never finishes, see `h2_cancel_deadlock` -/
-theorem deadline_forces_progress (rt : Runtime) (cfg : Cfg) (script : List LAct) (cap : Nat) (ops : List Op) (s : W)
+    handler always finishes (`h2CancelDeadlocks = false`) -/
+theorem deadline_forces_progress_of_flags (rt : Runtime) (cfg : Cfg) (script : List LAct) (cap : Nat) (ops : List Op) (s : W)
     (hcap : 2 ≤ cap) (hdl : rt.h2CancelDeadlocks = false) (hr : run (W.init rt cfg script cap) ops = some s) :
     (∀ since, s.phase = .draining since → since + cfg.gracefulTimeout ≤ s.now → s.srvStep.isSome = true) ∧
     (∀ since, s.phase = .lifespanShutdown since → since + cfg.shutdownTimeout ≤ s.now → s.srvStep.isSome = true) := by
@@ -92,6 +92,17 @@ theorem deadline_forces_progress (rt : Runtime) (cfg : Cfg) (script : List LAct)
     split
     · rfl
     · rw [hcfg]; simp [hto]
+
+/-- **at either deadline `worker_serve` has an action to take, whatever is still open — both worker classes, HTTP/2 streams
+    in progress on asyncio included** (since the F32 repair a cancelled handler always finishes: the HTTP/2 send task releases
+    every waiting sender when it ends).  With `bounded` (the clock cannot pass trigger + graceful_timeout + shutdown_timeout
+    while `worker_serve` has not returned, and `tick` is disabled while `worker_serve` has an action to take): the return is
+    forced, not merely permitted -/
+theorem deadline_forces_progress (rt : Runtime) (hc : Current rt) (cfg : Cfg) (script : List LAct) (cap : Nat) (ops : List Op)
+    (s : W) (hcap : 2 ≤ cap) (hr : run (W.init rt cfg script cap) ops = some s) :
+    (∀ since, s.phase = .draining since → since + cfg.gracefulTimeout ≤ s.now → s.srvStep.isSome = true) ∧
+    (∀ since, s.phase = .lifespanShutdown since → since + cfg.shutdownTimeout ≤ s.now → s.srvStep.isSome = true) :=
+  deadline_forces_progress_of_flags rt cfg script cap ops s hcap (by rcases hc with rfl | rfl <;> rfl) hr
 
 /-- the F18 run: one request that never finishes -/
 def f18Script : List LAct := [.recv, .sendStartupComplete, .recv, .sendShutdownComplete, .ret]
@@ -122,13 +133,39 @@ theorem bounded_fails_when_wait_closed_blocks :
     have := h _ _ _ _ s 0 hr h2 (by simp [h1, Phase.terminal])
     simp [h3, cfg0] at this
 
-/-- **known finding F32 (still present)** — asyncio: with an HTTP/2 stream still in progress when the grace period ends,
-    `worker_serve` has no action to take and the clock cannot advance: it never returns (`deadline_forces_progress` does not
-    cover `Runtime.asyncio`) -/
-theorem h2_cancel_deadlock :
-    (run (W.init .asyncio cfg0 f18Script 10)
-      [.app, .srv, .app, .srv, .connect .h2, .newStream 0, .trigger, .srv, .tick 4]).map (fun s => decide
+/-- the F32 run: an HTTP/2 connection with a stream still in progress when the grace period ends -/
+def f32Ops : List Op := [.app, .srv, .app, .srv, .connect .h2, .newStream 0, .trigger, .srv, .tick 4]
+
+/-- history (F32, fixed): before the repair, on asyncio, with an HTTP/2 stream still in progress when the grace period ended
+    `worker_serve` had no action to take and the clock could not advance: it never returned -/
+theorem h2_cancel_deadlock_before_fix :
+    (run (W.init .asyncioBeforeF32 cfg0 f18Script 10) f32Ops).map (fun s => decide
       (s.phase = .draining 0 ∧ s.now = 4 ∧ s.srvStep.isNone = true ∧ (step s (.tick 1)).isNone = true)) = some true := by decide
+
+/-- history: `deadline_forces_progress` was false for `Runtime.asyncioBeforeF32` — the `h2CancelDeadlocks` hypothesis of
+    `deadline_forces_progress_of_flags` is needed -/
+theorem deadline_forces_progress_failed_before_fix :
+    ¬ (∀ (cfg : Cfg) (script : List LAct) (cap : Nat) (ops : List Op) (s : W) (since : Nat), 2 ≤ cap →
+        run (W.init .asyncioBeforeF32 cfg script cap) ops = some s → s.phase = .draining since →
+        since + cfg.gracefulTimeout ≤ s.now → s.srvStep.isSome = true) := by
+  intro h
+  have hw := h2_cancel_deadlock_before_fix
+  cases hr : run (W.init .asyncioBeforeF32 cfg0 f18Script 10) f32Ops with
+  | none => simp [hr] at hw
+  | some s =>
+    simp only [hr, Option.map_some, Option.some.injEq, decide_eq_true_eq] at hw
+    obtain ⟨h1, h2, h3, _⟩ := hw
+    have := h cfg0 f18Script 10 f32Ops s 0 (by decide) hr h1 (by simp [h2, cfg0])
+    simp [Option.isNone_iff_eq_none.mp h3] at this
+
+-- the F32 run on the code as it is now: the handler is cancelled at trigger + graceful_timeout, the peer is told to go away,
+-- lifespan shutdown follows and `worker_serve` returns at that instant - on both workers (trio: without the GOAWAY)
+example : (run (W.init .asyncio cfg0 f18Script 10) (f32Ops ++ [.srv, .app, .srv])).map
+    (fun s => decide (s.phase = .done ∧ s.g.returnTime = some 4 ∧ s.hist.cancelled = [(0, .h2 1 true, 4)] ∧
+      s.log.contains (.goaway 0) = true)) = some true := by decide
+example : (run (W.init .trio cfg0 f18Script 10) (f32Ops ++ [.srv, .app, .app, .srv])).map
+    (fun s => decide (s.phase = .done ∧ s.g.returnTime = some 4 ∧ s.hist.cancelled = [(0, .h2 1 true, 4)] ∧
+      s.log.contains (.goaway 0) = false)) = some true := by decide
 
 -- the F18 run on the code as it is now: both workers return at exactly `trigger + graceful_timeout`
 example : (run (W.init .asyncio cfg0 f18Script 10)
